@@ -149,12 +149,22 @@ where
         }
         Ok(Err(err)) => {
             clean_on_error();
+            release_buffer(manually_drop);
             Err(err)
         }
         Err(err) => {
             clean_on_error();
-            panic!("{:?}", err);
+            release_buffer(manually_drop);
+            std::panic::resume_unwind(err);
         }
+    }
+}
+
+/// Releases the allocation of a vector whose elements have all been dropped or moved already.
+fn release_buffer<T>(mut vec: ManuallyDrop<Vec<T>>) {
+    unsafe {
+        vec.set_len(0);
+        ManuallyDrop::drop(&mut vec);
     }
 }
 
